@@ -5,6 +5,7 @@ Props/C18.lean refer to the lemmas of the same name in namespace `Askar.Copy.Lem
 import AskarModel.Model.Copy
 import AskarModel.Model.IndyMigration
 import AskarModel.Lemmas.Refine
+import AskarModel.Lemmas.Expiry
 
 namespace Askar.Copy
 open Askar.Store Askar.Wql
@@ -390,6 +391,301 @@ theorem copy_refuses_nonempty (page : Nat) (now : Int) (fault : Option Nat) (n :
     exact List.length_pos_iff.mpr hne
   simp only [hdst, hpos, if_true]
 
+/-! ### copy inside one store -/
+
+theorem copyProfileWithin_unfold (page : Nat) (now : Int) (fault : Option Nat) (st : StoreSt) (P P' : String)
+    (ss : Sess) (hs : Handle) (hsrc : resolve st.db st.h P = .ok (ss, hs)) :
+    copyProfileWithin page now fault st P P' =
+      ((copyInto page now fault 0 none ss { st with h := hs } P').1, (copyInto page now fault 0 none ss { st with h := hs } P').2.2) := by
+  simp only [copyProfileWithin, hsrc]
+
+/-- **copy_within_exact**: `copy_profile(b, b, P, P')` — the target profile ends with exactly the live records of the
+    source profile, every other profile of the store (the source profile included) keeps its records. -/
+theorem copy_within_exact (page : Nat) (now : Int) (st st' : StoreSt) (P P' : String) (hsorted : Sorted st.db)
+    (h : copyProfileWithin page now none st P P' = (st', .ok ())) :
+    ∃ ss sd : Sess, (∃ hs, resolve st.db st.h P = .ok (ss, hs)) ∧ resolve st'.db st'.h P' = .ok (sd, st'.h) ∧
+      liveAbs now sd st'.db = liveAbs now ss st.db ∧
+      (∀ s : Sess, s.pid ≠ sd.pid → liveAbs now s st'.db = liveAbs now s st.db) ∧
+      st'.default = st.default := by
+  cases hsrc : resolve st.db st.h P with
+  | error e => simp [copyProfileWithin, hsrc] at h
+  | ok v =>
+    obtain ⟨ss, hs⟩ := v
+    rw [copyProfileWithin_unfold _ _ _ _ _ _ ss hs hsrc] at h
+    simp only [Prod.mk.injEq] at h
+    obtain ⟨h1, h3⟩ := h
+    have hc : copyInto page now none 0 none ss { st with h := hs } P' =
+        (st', (copyInto page now none 0 none ss { st with h := hs } P').2.1, .ok ()) := by
+      rw [← h1, ← h3]
+    obtain ⟨sd, rows, hres, hempty, hitems, hmap, hrows, hkeys, hprof, hdef, hn⟩ := copyInto_ok _ _ _ _ _ _ _ _ _ hc
+    simp only [Option.getD_none] at hmap hkeys
+    have hai : (afterCreate { st with h := hs } P').db.items = st.db.items := afterCreate_items _ _
+    have hitems' : st'.db.items = (afterCreate { st with h := hs } P').db.items ++ rows := by rw [hai]; exact hitems
+    have hsorted' : Sorted (afterCreate { st with h := hs } P').db := by unfold Sorted; rw [hai]; exact hsorted
+    refine ⟨ss, sd, ⟨hs, rfl⟩, resolve_stable _ _ _ _ _ _ hres, ?_, ?_, hdef⟩
+    · rw [liveAbs_append now sd _ _ rows hitems' hrows, hempty, hmap, scanRows_sorted _ _ _ hsorted']
+      unfold liveAbs; rw [hai]; rfl
+    · intro s hne
+      rw [liveAbs_append_other now s sd _ st'.db rows hne hitems' hrows]
+      unfold liveAbs; rw [hai]
+
+/-! ### the target's keys do not matter -/
+
+/-- **copy_independent_of_target_method**: two copies of the same source profile into any two targets (whatever their
+    key method, pass key, profile keys, profile ids, other content) that both succeed give the same logical content. -/
+theorem copy_independent_of_target_method (page : Nat) (now : Int) (n₁ n₂ : Nat) (src dst₁ dst₂ : StoreSt) (P P₁ P₂ : String)
+    (s₁ d₁ s₂ d₂ : StoreSt) (m₁ m₂ : Nat) (hsorted : Sorted src.db)
+    (h₁ : copyProfile page now none n₁ src dst₁ P P₁ = (s₁, d₁, m₁, .ok ()))
+    (h₂ : copyProfile page now none n₂ src dst₂ P P₂ = (s₂, d₂, m₂, .ok ())) :
+    ∃ sd₁ sd₂ : Sess, resolve d₁.db d₁.h P₁ = .ok (sd₁, d₁.h) ∧ resolve d₂.db d₂.h P₂ = .ok (sd₂, d₂.h) ∧
+      liveAbs now sd₁ d₁.db = liveAbs now sd₂ d₂.db := by
+  obtain ⟨ss₁, sd₁, hr₁, hd₁, he₁, _⟩ := copy_profile_exact _ _ _ _ _ _ _ _ _ _ hsorted h₁
+  obtain ⟨ss₂, sd₂, hr₂, hd₂, he₂, _⟩ := copy_profile_exact _ _ _ _ _ _ _ _ _ _ hsorted h₂
+  refine ⟨sd₁, sd₂, hd₁, hd₂, ?_⟩
+  rw [hr₁] at hr₂
+  injection hr₂ with hr₂
+  injection hr₂ with hss _
+  rw [he₁, he₂, hss]
+
+/-! ### when the copy succeeds -/
+
+theorem resolve_afterCreate (dst : StoreSt) (toP : String) :
+    ∃ sd hd, resolve (afterCreate dst toP).db (afterCreate dst toP).h toP = .ok (sd, hd) := by
+  unfold afterCreate
+  cases hc : createProfile dst.db dst.h toP with
+  | ok v =>
+    obtain ⟨db, h⟩ := v
+    unfold createProfile at hc
+    split at hc
+    · cases hc
+    · injection hc with hc
+      injection hc with h1 h2
+      subst h1 h2
+      have : resolve ({ dst.db with profiles := dst.db.profiles ++ [⟨nextId (dst.db.profiles.map (·.id)), toP, dst.h.nextKey⟩] } : Db)
+          { cache := cachePut dst.h.cache toP (nextId (dst.db.profiles.map (·.id)), dst.h.nextKey), nextKey := dst.h.nextKey + 1 } toP =
+          .ok (⟨nextId (dst.db.profiles.map (·.id)), dst.h.nextKey⟩,
+               { cache := cachePut dst.h.cache toP (nextId (dst.db.profiles.map (·.id)), dst.h.nextKey), nextKey := dst.h.nextKey + 1 }) := by
+        simp [resolve, cacheGet_cachePut_self]
+      exact ⟨_, _, this⟩
+  | error e =>
+    unfold createProfile at hc
+    split at hc
+    · rename_i hany
+      simp only [resolve]
+      cases hg : cacheGet dst.h.cache toP with
+      | some v => exact ⟨_, _, rfl⟩
+      | none =>
+        obtain ⟨p, hp, hn⟩ := List.any_eq_true.mp hany
+        cases hf : dst.db.profiles.find? (·.name == toP) with
+        | some q => exact ⟨_, _, rfl⟩
+        | none =>
+          have := List.find?_eq_none.mp hf p hp
+          exact absurd hn this
+    · cases hc
+
+/-- identities of a list of entries are pairwise distinct -/
+def DistinctIdents (es : List Entry) : Prop :=
+  es.Pairwise fun a b => ¬(a.kind = b.kind ∧ a.cat = b.cat ∧ a.name = b.name)
+
+theorem importRows_succeeds (now : Int) (sd : Sess) : ∀ (es : List Entry) (db : Db) (n : Nat),
+    DistinctIdents es →
+    (∀ it ∈ db.items, ∀ e ∈ es, ¬(it.pid = sd.pid ∧ it.key = sd.key ∧ it.kind = e.kind ∧ it.cat = e.cat ∧ it.name = e.name)) →
+    ∃ r, importRows now sd none db n es = .ok r := by
+  intro es
+  induction es with
+  | nil => intro db n _ _; exact ⟨_, rfl⟩
+  | cons e es ih =>
+    intro db n hd hfree
+    simp only [DistinctIdents, List.pairwise_cons] at hd
+    have hno : (db.items.any (·.sameIdent sd.pid sd.key e.kind e.cat e.name)) = false := by
+      apply Bool.eq_false_iff.mpr
+      intro hany
+      obtain ⟨it, hit, hs⟩ := List.any_eq_true.mp hany
+      exact hfree it hit e (by simp) ((sameIdent_iff it _ _ _ _ _).mp hs)
+    simp only [importRows, reduceCtorEq, if_false, doInsert_none, hno, Bool.false_eq_true]
+    apply ih _ _ hd.2
+    intro it hit e' he' hc
+    simp only [List.mem_append, List.mem_singleton] at hit
+    rcases hit with hit | rfl
+    · exact hfree it hit e' (by simp [he']) hc
+    · exact hd.1 e' he' ⟨hc.2.2.1, hc.2.2.2.1, hc.2.2.2.2⟩
+
+theorem importScan_succeeds (now : Int) (sd : Sess) : ∀ (ps : List (List Entry)) (db : Db) (n : Nat),
+    DistinctIdents ps.flatten →
+    (∀ it ∈ db.items, ∀ e ∈ ps.flatten, ¬(it.pid = sd.pid ∧ it.key = sd.key ∧ it.kind = e.kind ∧ it.cat = e.cat ∧ it.name = e.name)) →
+    ∃ r, importScan now sd none db n ps = .ok r := by
+  intro ps
+  induction ps with
+  | nil => intro db n _ _; exact ⟨_, rfl⟩
+  | cons p ps ih =>
+    intro db n hd hfree
+    simp only [List.flatten_cons, DistinctIdents, List.pairwise_append] at hd
+    obtain ⟨hdp, hdps, hcross⟩ := hd
+    obtain ⟨⟨db1, n1⟩, hp⟩ := importRows_succeeds now sd p db n hdp (fun it hit e he => hfree it hit e (by simp [he]))
+    obtain ⟨rows, hitems, hmap, hrows, _, _⟩ := importRows_ok now sd p db n db1 n1 hp
+    simp only [importScan, hp]
+    apply ih _ _ hdps
+    intro it hit e he hc
+    rw [hitems] at hit
+    rcases List.mem_append.mp hit with hit | hit
+    · exact hfree it hit e (by simp [he]) hc
+    · have : toEntry it ∈ p := by rw [← hmap]; exact List.mem_map_of_mem hit
+      exact hcross (toEntry it) this e he ⟨hc.2.2.1, hc.2.2.2.1, hc.2.2.2.2⟩
+
+/-- **copy_into_fresh_succeeds**: `copy_profile` succeeds whenever the source profile exists, its live rows decrypt
+    under its key and carry pairwise distinct identities (the unique index), and the target profile holds no row at
+    all (new, or really empty — not merely "all expired", see `import_into_logically_empty_refuted`). -/
+theorem copy_into_fresh_succeeds (page : Nat) (now : Int) (n : Nat) (src dst : StoreSt) (P P' : String)
+    (ss : Sess) (hs : Handle) (hsrc : resolve src.db src.h P = .ok (ss, hs))
+    (hkey : ∀ it ∈ src.db.items, it.pid = ss.pid → live now it = true → it.key = ss.key)
+    (huniq : DistinctIdents (liveAbs now ss src.db)) (hsorted : Sorted src.db)
+    (hfresh : ∀ sd hd, resolve (afterCreate dst P').db (afterCreate dst P').h P' = .ok (sd, hd) →
+      ∀ it ∈ dst.db.items, it.pid ≠ sd.pid) :
+    ∃ dst' n', copyProfile page now none n src dst P P' = ({ src with h := hs }, dst', n', .ok ()) := by
+  obtain ⟨sd, hd, hres⟩ := resolve_afterCreate dst P'
+  have hnone := hfresh sd hd hres
+  rw [copyProfile_unfold _ _ _ _ _ _ _ _ ss hs hsrc, copyInto_eq]
+  simp only [hres, Option.getD_some]
+  have hcount : ¬ doCount noLike (afterCreate dst P').db now sd none none none > 0 := by
+    rw [doCount_all]
+    have : liveAbs now sd (afterCreate dst P').db = [] := by
+      unfold liveAbs
+      rw [afterCreate_items]
+      apply List.map_eq_nil_iff.mpr
+      apply List.filter_eq_nil_iff.mpr
+      intro it hit
+      have := hnone it hit
+      simp [this]
+    simp [this]
+  simp only [hcount, if_false]
+  have hrowsKey : ∀ it ∈ scanRows now ss src.db, it.key = ss.key := by
+    intro it hit
+    have hm := (mem_sortById.mp hit)
+    simp only [List.mem_filter, Bool.and_eq_true, beq_iff_eq] at hm
+    exact hkey it hm.1 hm.2.1 hm.2.2
+  have hscan : doScan noLike page src.db now ss none none none none none false =
+      .ok (drainScan page (batches page ((scanRows now ss src.db).map toEntry))) := by
+    simp only [doScan, selectRows_all, decryptRows_ok ss.key _ hrowsKey]
+  have hflat : (drainScan page (batches page ((scanRows now ss src.db).map toEntry))).flatten = liveAbs now ss src.db := by
+    rw [drain_batches, batches_flatten, scanRows_sorted _ _ _ hsorted]
+  simp only [hscan]
+  obtain ⟨⟨db1, n1⟩, himp⟩ := importScan_succeeds now sd _ (afterCreate dst P').db n (by rw [hflat]; exact huniq) (by
+    intro it hit e _ hc
+    rw [afterCreate_items] at hit
+    exact hnone it hit hc.1)
+  simp only [himp]
+  exact ⟨_, _, rfl⟩
+
+/-! ### the per-profile loop of `copy_store` / `copy_to` -/
+
+theorem copyProfile_target_default (page : Nat) (now : Int) (n : Nat) (src dst : StoreSt) (P P' : String)
+    (src' dst' : StoreSt) (n' : Nat) (h : copyProfile page now none n src dst P P' = (src', dst', n', .ok ())) :
+    dst'.default = dst.default := by
+  cases hsrc : resolve src.db src.h P with
+  | error e => simp [copyProfile, hsrc] at h
+  | ok v =>
+    obtain ⟨ss, hs⟩ := v
+    rw [copyProfile_unfold _ _ _ _ _ _ _ _ ss hs hsrc] at h
+    simp only [Prod.mk.injEq] at h
+    obtain ⟨rfl, h1, h2, h3⟩ := h
+    have hc : copyInto page now none n (some src.db) ss dst P' = (dst', n', .ok ()) := by
+      rw [← h1, ← h2, ← h3]
+    obtain ⟨_, _, _, _, _, _, _, _, _, hdef, _⟩ := copyInto_ok _ _ _ _ _ _ _ _ _ hc
+    exact hdef
+
+/-- a successful loop: the source is not written, the target keeps the default profile it was provisioned with,
+    and every listed profile went through a successful `copy_profile` from the unchanged source tables -/
+theorem copyLoop_ok (page : Nat) (now : Int) : ∀ (ps : List String) (n : Nat) (src dst src' dst' : StoreSt),
+    copyLoop page now none n src dst ps = (src', dst', .ok ()) →
+    src'.db = src.db ∧ src'.default = src.default ∧ dst'.default = dst.default := by
+  intro ps
+  induction ps with
+  | nil =>
+    intro n src dst src' dst' h
+    simp only [copyLoop, Prod.mk.injEq, and_true] at h
+    obtain ⟨rfl, rfl⟩ := h
+    exact ⟨rfl, rfl, rfl⟩
+  | cons p ps ih =>
+    intro n src dst src' dst' h
+    simp only [copyLoop] at h
+    split at h
+    · simp only [Prod.mk.injEq, reduceCtorEq, and_false] at h
+    · rename_i s1 d1 n1 hstep
+      obtain ⟨h1, h2, h3⟩ := ih _ _ _ _ _ h
+      have hsrc := copy_source_unchanged page now none n src dst p p
+      rw [hstep] at hsrc
+      have hd := copyProfile_target_default _ _ _ _ _ _ _ _ _ _ hstep
+      exact ⟨h1.trans hsrc.1, h2.trans hsrc.2, h3.trans hd⟩
+
+/-- **copy_store_default_carried** (part of `copy_store_all_profiles`): a successful whole-store copy onto a fresh
+    target leaves the source tables untouched and gives the target the source's default profile name -/
+theorem copy_store_default_carried (page : Nat) (now : Int) (keyBase : Nat) (src src' dst' : StoreSt) (existing : Option StoreSt)
+    (h : copyStore page now none keyBase src existing true = (src', some dst', .ok ())) :
+    src'.db = src.db ∧ src'.default = src.default ∧ dst'.default = src.default := by
+  have hl : copyLoop page now none 0 src (provision keyBase src.default) (listProfiles src.db) = (src', dst', .ok ()) := by
+    cases existing <;>
+    · simp only [copyStore] at h
+      cases hc : copyLoop page now none 0 src (provision keyBase src.default) (listProfiles src.db) with
+      | mk s rest =>
+        obtain ⟨d, r⟩ := rest
+        rw [hc] at h
+        simp only [Prod.mk.injEq, Option.some.injEq] at h
+        obtain ⟨rfl, rfl, rfl⟩ := h
+        rfl
+  obtain ⟨h1, h2, h3⟩ := copyLoop_ok _ _ _ _ _ _ _ _ hl
+  exact ⟨h1, h2, h3⟩
+
+/- OPEN: copy_store_all_profiles (full form)
+   theorem copy_store_all_profiles (page now keyBase) (src src' dst' : StoreSt)
+       (hs : Sorted src.db) (hwf : ProfilesWF src.db) (hcc : CacheCoherent src.db src.h)
+       (h : copyStore page now none keyBase src none true = (src', some dst', .ok ())) :
+       (∀ name, name ∈ dst'.db.profiles.map (·.name) ↔ name ∈ src.db.profiles.map (·.name) ∨ name = src.default) ∧
+       (∀ P ∈ src.db.profiles.map (·.name), ∃ ss sd hs', resolve src.db src'.h P = .ok (ss, hs') ∧
+           resolve dst'.db dst'.h P = .ok (sd, dst'.h) ∧ liveAbs now sd dst'.db = liveAbs now ss src.db)
+   Proved so far: every step of the loop (`copy_profile_exact`, with its frame clause: profiles with another profile id
+   keep their content), the loop's effect on source / default (`copyLoop_ok`).  Missing: the loop invariant that the
+   target's handle stays coherent with its `profiles` table (`CacheCoherent` + `ProfilesWF`, available for
+   `createProfile`/`resolve` in Lemmas/Refine.lean), from which distinct names resolve to distinct profile ids, so that
+   the frame clause carries each copied profile's content to the end of the loop. -/
+
+/-! ### what does not hold on the current code -/
+
+/-- An import into a target profile that is *logically* empty (no live record) — which is all `copy_profile` checks —
+    always goes through. -/
+def ImportIntoLogicallyEmptySucceeds : Prop :=
+  ∀ (now : Int) (sd : Sess) (db : Db) (es : List Entry), liveAbs now sd db = [] → DistinctIdents es →
+    ∃ r, importRows now sd none db 0 es = .ok r
+
+/-- Refuted: an *expired* row under the identity of a source record makes the import fail with Duplicate
+    (finding D8 of C17 reaching C18; replayed by the harness: `copy_profile:ok->err:Duplicate:expired-shadow-in-target`). -/
+theorem import_into_logically_empty_refuted : ¬ ImportIntoLogicallyEmptySucceeds := by
+  intro h
+  obtain ⟨r, hr⟩ := h 5000 ⟨1, 0⟩ Askar.Store.Lemmas.wDb [⟨2, "c", "n", [], []⟩]
+    (by
+      unfold liveAbs
+      apply List.map_eq_nil_iff.mpr
+      apply List.filter_eq_nil_iff.mpr
+      intro it hit
+      simp [Askar.Store.Lemmas.wDb_all_expired it hit])
+    (by simp [DistinctIdents])
+  have hw := Askar.Store.Lemmas.wItem_same
+  simp only [importRows, reduceCtorEq, if_false, doInsert_none, Askar.Store.Lemmas.wDb, List.any_cons, hw,
+    Bool.true_or, if_true] at hr
+
+/-- The target of a whole-store copy has exactly the source's profiles. -/
+def CopyStoreSameProfiles : Prop :=
+  ∀ (page : Nat) (now : Int) (keyBase : Nat) (src src' dst' : StoreSt),
+    copyStore page now none keyBase src none true = (src', some dst', .ok ()) →
+    ∀ name, name ∈ dst'.db.profiles.map (·.name) ↔ name ∈ src.db.profiles.map (·.name)
+
+/-- Refuted: the target is provisioned with the name in `config.default_profile`, which need not name an existing
+    profile (`remove_profile` and `set_default_profile` do not look at each other): the target then has a profile the
+    source does not have (replayed by the harness: `copy_to:profiles:extra:source-default-profile-does-not-exist`). -/
+theorem copy_store_same_profiles_refuted : ¬ CopyStoreSameProfiles := by
+  intro h
+  have := h 32 0 7 { db := {}, h := {}, default := "a" } { db := {}, h := {}, default := "a" } (provision 7 "a") rfl "a"
+  simp [provision] at this
+
 end Lemmas
 end Askar.Copy
 
@@ -416,6 +712,14 @@ theorem decryptMerged_sealed (A : Aead) (hA : A.Correct) (k pt merged : Bytes) (
   have h3 : (n ++ A.enc k n pt).drop nonceLen = A.enc k n pt := by rw [← hn]; simp
   simp only [decryptMerged, h1, if_false, h2, h3, hA.dec_enc]
 
+theorem toyAead_correct : toyAead.Correct := ⟨by
+  intro k n m
+  have h1 : (k ++ n ++ m).take (k.length + n.length) = k ++ n :=
+    List.take_left' (l₁ := k ++ n) (l₂ := m) (List.length_append)
+  have h2 : (k ++ n ++ m).drop (k.length + n.length) = m :=
+    List.drop_left' (l₁ := k ++ n) (l₂ := m) (List.length_append)
+  simp only [toyAead, h1, h2, beq_self_eq_true, if_true]⟩
+
 /-- a wallet record in the clear -/
 structure Rec where
   typ : String
@@ -440,34 +744,48 @@ def RowEncodes (A : Aead) (keys : Keys) (row : Row) (r : Rec) : Prop :=
   Forall2 (TagEncodes A keys true) row.tagsEnc r.encTags ∧
   Forall2 (TagEncodes A keys false) row.tagsPlain r.plainTags
 
+/-- `String::from_utf8` gives the string back from its UTF-8 bytes (a fact about the decoder, needed only for the
+    strings the wallet actually holds) -/
+def Decodes (utf8dec : Bytes → Option String) (s : String) : Prop := utf8dec (utf8 s) = some s
+
+def TagsDecode (utf8dec : Bytes → Option String) (ts : List (String × String)) : Prop :=
+  ∀ t ∈ ts, Decodes utf8dec t.1 ∧ Decodes utf8dec t.2
+
+def RecDecodes (utf8dec : Bytes → Option String) (r : Rec) : Prop :=
+  Decodes utf8dec r.typ ∧ Decodes utf8dec r.name ∧ TagsDecode utf8dec r.encTags ∧ TagsDecode utf8dec r.plainTags
+
 theorem decryptTags_encoded (A : Aead) (hA : A.Correct) (utf8dec : Bytes → Option String)
-    (hU : ∀ s, utf8dec (utf8 s) = some s) (keys : Keys) (valueEnc : Bool)
-    (ps : List (Bytes × Bytes)) (ts : List (String × String)) (h : Forall2 (TagEncodes A keys valueEnc) ps ts) :
+    (keys : Keys) (valueEnc : Bool)
+    (ps : List (Bytes × Bytes)) (ts : List (String × String)) (h : Forall2 (TagEncodes A keys valueEnc) ps ts)
+    (hU : TagsDecode utf8dec ts) :
     decryptTags A utf8dec keys.tagNameKey (if valueEnc then some keys.tagValueKey else none) ps = .ok ts := by
   induction h with
   | nil => rfl
-  | cons hpt _ ih =>
-    rename_i p t ps ts
+  | @cons p t ps ts hpt _ ih =>
     obtain ⟨hn, hv⟩ := hpt
     obtain ⟨pn, pv⟩ := p
     obtain ⟨tn, tv⟩ := t
-    simp only [decryptTags, decryptMerged_sealed A hA _ _ _ hn, hU]
+    have ih := ih (fun t ht => hU t (by simp [ht]))
+    obtain ⟨h1, h2⟩ := hU (tn, tv) (by simp)
+    unfold Decodes at h1 h2
+    simp only at h1 h2
+    simp only [decryptTags, decryptMerged_sealed A hA _ _ _ hn, h1]
     cases valueEnc with
     | true =>
       simp only [if_true] at hv ih ⊢
-      simp only [decryptMerged_sealed A hA _ _ _ hv, hU, ih]
+      simp only [decryptMerged_sealed A hA _ _ _ hv, h2, ih]
     | false =>
       simp only [Bool.false_eq_true, if_false] at hv ih ⊢
       subst hv
-      simp only [hU, ih]
+      simp only [h2, ih]
 
 theorem decryptItem_encoded (A : Aead) (hA : A.Correct) (utf8dec : Bytes → Option String)
-    (hU : ∀ s, utf8dec (utf8 s) = some s) (keys : Keys) (row : Row) (r : Rec) (h : RowEncodes A keys row r) :
+    (keys : Keys) (row : Row) (r : Rec) (h : RowEncodes A keys row r) (hU : RecDecodes utf8dec r) :
     decryptItem A utf8dec keys row =
       .ok { id := row.id, typ := utf8 r.typ, name := utf8 r.name, value := some r.value, tags := r.toEntry.tags } := by
   obtain ⟨ht, hn, ⟨ik, v, hlen, hk, hv, hval⟩, hte, htp⟩ := h
-  have h1 := decryptTags_encoded A hA utf8dec hU keys true _ _ hte
-  have h2 := decryptTags_encoded A hA utf8dec hU keys false _ _ htp
+  have h1 := decryptTags_encoded A hA utf8dec keys true _ _ hte hU.2.2.1
+  have h2 := decryptTags_encoded A hA utf8dec keys false _ _ htp hU.2.2.2
   simp only [if_true, Bool.false_eq_true, if_false] at h1 h2
   simp only [decryptItem, decryptMerged_sealed A hA _ _ _ hk, hlen, ne_eq, not_true_eq_false, if_false, hv,
     decryptMerged_sealed A hA _ _ _ hval, Except.map, h1, h2, decryptMerged_sealed A hA _ _ _ ht,
@@ -479,19 +797,21 @@ def migratedRow (pkey : Nat) (id : Nat) (r : Rec) : Item :=
     tags := r.toEntry.tags, expiry := none }
 
 theorem migrateRows_encoded (A : Aead) (hA : A.Correct) (utf8dec : Bytes → Option String)
-    (hU : ∀ s, utf8dec (utf8 s) = some s) (keys : Keys) (pkey : Nat)
+    (keys : Keys) (pkey : Nat)
     (rows : List Row) (recs : List Rec) (h : Forall2 (RowEncodes A keys) rows recs) :
-    ∀ (db : Db), recs.Pairwise (fun a b => ¬(a.typ = b.typ ∧ a.name = b.name)) →
+    ∀ (db : Db), (∀ r ∈ recs, RecDecodes utf8dec r) → recs.Pairwise (fun a b => ¬(a.typ = b.typ ∧ a.name = b.name)) →
       (∀ it ∈ db.items, ∀ r ∈ recs, ¬(it.pid = 1 ∧ it.cat = r.typ ∧ it.name = r.name)) →
       ∃ (db' : Db) (added : List Item), migrateRows A utf8dec keys pkey rows db = .ok db' ∧
         db'.items = db.items ++ added ∧ added.map toEntry = recs.map Rec.toEntry ∧
         (∀ it ∈ added, it.pid = 1 ∧ it.key = pkey ∧ it.expiry = none) ∧ db'.profiles = db.profiles := by
   induction h with
-  | nil => intro db _ _; exact ⟨db, [], rfl, by simp, rfl, by simp, rfl⟩
-  | cons hrow _ ih =>
-    rename_i row r rows recs
-    intro db hpw hfresh
-    have hdec := decryptItem_encoded A hA utf8dec hU keys row r hrow
+  | nil => intro db _ _ _; exact ⟨db, [], rfl, by simp, rfl, by simp, rfl⟩
+  | @cons row r rows recs hrow _ ih =>
+    intro db hU hpw hfresh
+    have hUr := hU r (by simp)
+    have hdec := decryptItem_encoded A hA utf8dec keys row r hrow hUr
+    have hUt : utf8dec (utf8 r.typ) = some r.typ := hUr.1
+    have hUn : utf8dec (utf8 r.name) = some r.name := hUr.2.1
     have hnodup : (db.items.any (·.sameIdent 1 pkey 2 r.typ r.name)) = false := by
       apply Bool.eq_false_iff.mpr
       intro hany
@@ -503,9 +823,10 @@ theorem migrateRows_encoded (A : Aead) (hA : A.Correct) (utf8dec : Bytes → Opt
     have hstep : insertMigrated utf8dec pkey db
         { id := row.id, typ := utf8 r.typ, name := utf8 r.name, value := some r.value, tags := r.toEntry.tags } =
         .ok { db with items := db.items ++ [newRow] } := by
-      simp only [insertMigrated, hU, Option.isSome_some, if_true, hnodup, Bool.false_eq_true, if_false,
+      simp only [insertMigrated, hUt, hUn, Option.isSome_some, if_true, hnodup, Bool.false_eq_true, if_false,
         Option.getD_some, newRow, migratedRow]
-    obtain ⟨db', added, hm, hitems, hmap, hall, hprof⟩ := ih { db with items := db.items ++ [newRow] } hpw.2 (by
+    obtain ⟨db', added, hm, hitems, hmap, hall, hprof⟩ := ih { db with items := db.items ++ [newRow] }
+      (fun r' hr' => hU r' (by simp [hr'])) hpw.2 (by
       intro it hit r' hr' hc
       simp only [List.mem_append, List.mem_singleton] at hit
       rcases hit with hit | rfl
@@ -524,8 +845,9 @@ theorem migrateRows_encoded (A : Aead) (hA : A.Correct) (utf8dec : Bytes → Opt
 
 /-- **migrate_rows_exact** -/
 theorem migrate_rows_exact (A : Aead) (hA : A.Correct) (utf8dec : Bytes → Option String)
-    (hU : ∀ s, utf8dec (utf8 s) = some s) (unwrapKeys : Bytes → Option Keys) (keys : Keys) (pkey : Nat)
+    (unwrapKeys : Bytes → Option Keys) (keys : Keys) (pkey : Nat)
     (w : Wallet) (walletName : String) (recs : List Rec)
+    (hU : ∀ r ∈ recs, RecDecodes utf8dec r)
     (hfresh : w.migrated = false) (hkeys : unwrapKeys w.keysEnc = some keys)
     (henc : Forall2 (RowEncodes A keys) w.rows recs)
     (huniq : recs.Pairwise (fun a b => ¬(a.typ = b.typ ∧ a.name = b.name))) :
@@ -535,7 +857,7 @@ theorem migrate_rows_exact (A : Aead) (hA : A.Correct) (utf8dec : Bytes → Opti
       st.db.profiles = [⟨1, walletName, pkey⟩] ∧ st.default = walletName ∧
       resolve st.db st.h walletName = .ok (⟨1, pkey⟩, st.h) := by
   obtain ⟨db', added, hm, hitems, hmap, hall, hprof⟩ :=
-    migrateRows_encoded A hA utf8dec hU keys pkey w.rows recs henc { profiles := [⟨1, walletName, pkey⟩] } huniq (by simp)
+    migrateRows_encoded A hA utf8dec keys pkey w.rows recs henc { profiles := [⟨1, walletName, pkey⟩] } hU huniq (by simp)
   refine ⟨{ db := db', h := { cache := [(walletName, 1, pkey)], nextKey := pkey + 1 }, default := walletName }, ?_, ?_, ?_, ?_, rfl, ?_⟩
   · simp only [migrate, hfresh, Bool.false_eq_true, if_false, hkeys, hm]
   · simp only [abs, hitems, List.nil_append]
